@@ -1273,8 +1273,7 @@ def pmr_coverage_obligations(repo, tier):
         o = ground_obligation(oid, not bad, json.dumps({k: res.get(k) for k in ("inputs", "expected", "observed")}, default=repr)[:400] if bad else
                               "12 inputs (8 strings, 4 lists)", MSG, kind="bounded", backend="native")
         if bad:
-            o["witness"] = res.get("inputs")
-            o["_replayed"] = res
+            o["witness"] = res.get("inputs")       # (the check replays it once more itself and writes the replay record)
     o["bounded"] = True
     o["bound"] = "the 12 inputs of replay/C16.py::check_multi_recipients"
     if o["status"] == "proved":
